@@ -387,8 +387,10 @@ class RenderContext:
     ) -> Iterator[RenderContext]:
         """Just like `Context.extend`, but keeps track of ForLoop objects too."""
         self.raise_for_loop_limit(forloop.length)
-        self.loops.append(forloop)
         with self.extend(namespace) as context:
+            # Push only once `extend` has succeeded, so a ContextDepthError does
+            # not leave this loop on the stack.
+            self.loops.append(forloop)
             try:
                 yield context
             finally:
